@@ -24,7 +24,7 @@ ID = 'C17'
 LEVEL = 'exploration'
 
 OPS = ['slice', 'dedrift', 'signal', 'integrate']
-ROUTES = ['kwargs', 'mjd', 'float32', 'fil', 'h5', 'derived']
+ROUTES = ['kwargs', 'mjd', 'float32', 'fil', 'h5', 'derived', 'consolidated']
 SIG_ROUTES = ['kwargs', 'mjd', 'float32']
 DCLASSES = ['zero', 'unit', 'half', 'frac', 'multi', 'tiny', 'within-limit', 'limit-below', 'in-between',
             'limit-beyond', 'far-beyond']
@@ -263,7 +263,9 @@ def build_parent(stg, c, R, data=None):
         fr = stg.Frame(data=data, mjd=c['mjd'], **kw)
     else:
         fr = stg.Frame(data=data, t_start=c['t0'], **kw)
-    if route in ('fil', 'h5'):
+    if route == 'consolidated':
+        fr = _consolidated(stg, c, R, data, kw)
+    elif route in ('fil', 'h5'):
         fr = _via_file(stg, fr, route)
         R.bucket('parent:file-loaded')
     elif route == 'derived':
@@ -289,6 +291,23 @@ def build_parent(stg, c, R, data=None):
     return fr
 
 
+def _consolidated(stg, c, R, data, kw):
+    """The parent is what Cadence.consolidate() returns for the same pixels observed as one or two frames: an ordinary
+    frame (same resolutions, rows in time order) whose time labels are absolute rather than counted from its start."""
+    T = data.shape[0]
+    T1 = T // 2 if T >= 2 else T
+    parts = [stg.Frame(data=np.array(data[:T1], copy=True), t_start=c['t0'], **kw)]
+    if T1 < T:
+        parts.append(stg.Frame(data=np.array(data[T1:], copy=True), t_start=c['t0'] + T1 * c['dt'] + 30.0, **kw))
+    with common.quiet():
+        cad = stg.Cadence(parts, t_slew=30.0, t_overwrite=bool(c['sub'] % 2))
+        fr = cad.consolidate()
+    fr.t_start = c['t0'] + 77.25
+    fr.source_name = c['name'] + '_C'
+    R.bucket('parent:consolidated')
+    return fr
+
+
 class Snap:
     """OLD-state of the parent: everything the oracles use is copied before the call under test."""
 
@@ -305,6 +324,9 @@ class Snap:
         self.tolf = FS_ULPS * float(np.spacing(max(abs(self.fs[0]), abs(self.fs[-1]))))
         self.o = 'asc' if self.asc else 'desc'
         self.meta = {k: repr(v_) for k, v_ in fr.metadata.items()} if isinstance(getattr(fr, 'metadata', None), dict) else None
+        # a frame's time labels normally count from its own start; where they do not (consolidated cadences carry absolute
+        # times) the property says nothing about the labels of derived FRAMES - only time series must carry the parent's axis
+        self.plain_ts = bool(np.all(np.abs(self.ts - np.arange(self.T) * self.dt) <= 4 * common.ulp(max(self.T * self.dt, 1e-300))))
 
 
 def _name(s):
@@ -402,7 +424,8 @@ def run_slice(stg, c, R, fr, meta):
                     nbad=int(np.sum(got != want)))
             R.check(int(s.fchans) == want.shape[1] and int(s.tchans) == P.T, f'slice:fchans-tchans:{P.o}', l=l, r=r)
         check_axis(R, s.fs, P.fs[l:r], P.tolf, f'slice:fs:{P.o}', 'slice_fs', l=l, r=r, F=F)
-        check_axis(R, s.ts, P.ts, 4 * common.ulp(max(P.T * P.dt, 1e-300)), f'slice:ts:{P.o}', 'slice_ts', l=l, r=r)
+        if P.plain_ts:
+            check_axis(R, s.ts, P.ts, 4 * common.ulp(max(P.T * P.dt, 1e-300)), f'slice:ts:{P.o}', 'slice_ts', l=l, r=r)
         check_kept(R, P, s, 'slice', fr)
         meta.look(R, P, s, 'slice')
     R.mark_nontrivial(F >= 2 and P.T >= 2)
@@ -502,7 +525,8 @@ def run_dedrift_once(stg, R, fr, d, meta, via='explicit', tag=''):
     if not R.check(on_grid, 'dedrift:band-not-on-parent-grid' + sfx, fs0=float(cfs[0]), nearest=float(P.fs[j0]), j0=j0, W=W, F=F):
         return child, None, P, lo, hi, tie
     check_axis(R, cfs, P.fs[j0:j0 + W], P.tolf, 'dedrift:fs' + sfx, 'dedrift_fs', j0=j0, W=W, d=d)
-    check_axis(R, child.ts, P.ts, 4 * common.ulp(max(T * P.dt, 1e-300)), 'dedrift:ts' + sfx, 'dedrift_ts')
+    if P.plain_ts:
+        check_axis(R, child.ts, P.ts, 4 * common.ulp(max(T * P.dt, 1e-300)), 'dedrift:ts' + sfx, 'dedrift_ts')
     # row i is the parent's row i moved by off_i channels towards the start of the drift
     sgn = -1 if neg else 1
     cols = np.arange(W)[None, :]
